@@ -165,4 +165,45 @@ def statusOk (st : String) (nsol nbnd nunk npend ninner : Nat) : Bool :=
   | "TIME_OUT" => true
   | _ => false
 
+/-! ### interrupted search, resumed from a saved paving (C18, second half) -/
+
+/-- one box of a paving with its verdict: `"I"` inner, `"S"` solution, `"B"` boundary (validated boxes),
+    `"U"` unknown, `"D"` pending; `uni`/`vars`: unicity box and variables of a solution (and the varset of a
+    boundary box); `cert`: whether the box takes part in the uniqueness rules of the replay -/
+structure Item where
+  kind : String
+  box : Box
+  uni : Box
+  vars : List Nat
+  cert : Bool
+deriving Repr, DecidableEq
+
+def Item.validated (it : Item) : Bool := it.kind == "I" || it.kind == "S" || it.kind == "B"
+
+/-- the paving used by the replay -/
+def pavingOf (items : List Item) : Paving :=
+  ⟨items.map (·.box), items.filterMap fun it => if it.cert then some (it.box, it.uni, it.vars) else none⟩
+
+/-- boxes pushed at the very beginning of a log (the cells the search starts from) -/
+def leadingPushes : List Ev → List Box
+  | .push b :: es => b :: leadingPushes es
+  | _ => []
+
+/-- what a resumed search owes to the paving `prev` it starts from: every validated box of `prev` is in the
+    new paving, unchanged (same verdict, same box, same unicity box and variables), every other box
+    (unknown, pending) is one of the cells the resumed search starts from, or is kept as a box of `new` -/
+def resumeOk (prev new : List Item) (roots : List Box) : Bool :=
+  prev.all fun it => if it.validated then decide (it ∈ new)
+    else decide (it.box ∈ roots) || decide (it.box ∈ new.map (·.box))
+
+/-- one resumed run: carry-over rule and accepted log (whose first events push the cells `roots`) -/
+def stageOk (cert : Box → Box × Box × List Nat → Bool) (prev new : List Item) (log : List Ev) : Bool :=
+  resumeOk prev new (leadingPushes log) &&
+  (match check cert (pavingOf new) log with | .ok _ => true | .error _ => false)
+
+/-- a chain of interrupted / resumed runs: `first` is the paving of the first (interrupted) run -/
+def chainOk (cert : Box → Box × Box × List Nat → Bool) : List Item → List (List Item × List Ev) → Bool
+  | _, [] => true
+  | prev, (new, log) :: rest => stageOk cert prev new log && chainOk cert new rest
+
 end Ibex.Cover
